@@ -82,3 +82,65 @@ func VerifHarness_C20_EndToEnd2()    { c20EndToEnd(2, -1, false) }
 func VerifHarness_C20_EndToEnd2NLP() { c20EndToEnd(2, -1, true) }
 func VerifHarness_C20_EndToEnd5NLP() { c20EndToEnd(5, 2, true) }
 func VerifHarness_C20_EndToEnd3()    { c20EndToEnd(3, -1, false) }
+
+// c20Respell returns base (lower-case ASCII text) and a re-spelling whose letters have their
+// case flipped according to symbolic mask bits.
+func c20Respell(base string) (string, string) {
+	up := make([]byte, len(base))
+	for i := 0; i < len(base); i++ {
+		b := base[i]
+		if b >= 'a' && b <= 'z' {
+			m := verifByte("mask")
+			verifAssume(m <= 1)
+			up[i] = b - m*32
+		} else {
+			up[i] = b
+		}
+	}
+	return base, string(up)
+}
+
+// long natural-language queries (context clues such as "without opening", view words inside
+// other words) under every re-casing
+func VerifHarness_C20_Sentence() {
+	base := []string{"print the readme without opening it", "show preview without editing"}[verifIntRange("sentence", 0, 1)]
+	q, r := c20Respell(base)
+	p1 := nlp.NewQueryProcessor().ProcessQuery(q)
+	p2 := nlp.NewQueryProcessor().ProcessQuery(r)
+	verifAssert(p1.Intent == p2.Intent, "C20: the detected intent ignores letter case")
+	verifAssert(c20SameStrings(p1.Keywords, p2.Keywords), "C20: extracted keywords ignore letter case")
+	verifAssert(c20SameStrings(p1.Actions, p2.Actions), "C20: detected actions ignore letter case")
+	verifAssert(c20SameStrings(p1.Targets, p2.Targets), "C20: detected targets ignore letter case")
+	verifAssert(c20SameStrings(normalizeAndTokenize(q), normalizeAndTokenize(r)), "C20: the index / query tokeniser ignores letter case")
+	verifReach("stages")
+}
+
+// stop words spelled with capitals in the query and in command texts (TF-IDF re-ranker side)
+func VerifHarness_C20_StopWords() {
+	mk := func(cmd, desc string) Command {
+		c := Command{Command: cmd, Description: desc}
+		vFill(&c)
+		return c
+	}
+	db := &Database{Commands: []Command{
+		mk("aa", "How to Get The thing"), mk("bb", "get aa thing"), mk("cc", "the thing aa"), mk("dd", "how aa"),
+	}}
+	db.BuildUniversalIndex()
+	db.buildTFIDFSearcher()
+	base := []string{"get the aa", "how to get aa thing"}[verifIntRange("sentence", 0, 1)]
+	q, r := c20Respell(base)
+	o := SearchOptions{Limit: 5, UseNLP: true, AllPlatforms: true}
+	a := db.SearchUniversal(q, o)
+	b := db.SearchUniversal(r, o)
+	verifAssert(len(a) == len(b), "C20: a re-cased query returns the same number of results")
+	if len(a) == len(b) {
+		for k := range a {
+			verifAssert(a[k].Command == b[k].Command, "C20: a re-cased query returns the same commands in the same order")
+			verifAssert(c03SameFloat(a[k].Score, b[k].Score), "C20: a re-cased query returns the same scores")
+		}
+	}
+	verifReach("compared")
+	if len(a) > 0 {
+		verifReach("nonempty")
+	}
+}
